@@ -131,3 +131,41 @@ def _latemark(clause, replay, ctx):
             return True
         todo += hosts[k - 1]["bases"]
     return False
+
+
+def _walk(t):
+    if isinstance(t, dict):
+        yield t
+        for v in t.values():
+            yield from _walk(v)
+    elif isinstance(t, list):
+        for v in t:
+            yield from _walk(v)
+
+
+def _sites(prog):
+    return [t for t in _walk(prog) if t.get("n") == "C"]
+
+
+@matcher("c09_dstar")
+def _c09_dstar(clause, replay, ctx):
+    return (clause == "C09:placement_accepted" and any(c["dstar"] for c in _sites(ctx["prog"]))
+            and "No method" in ctx["reg"]["built"])
+
+
+@matcher("c09_starnext")
+def _c09_starnext(clause, replay, ctx):
+    return (clause == "C09:placement_accepted" and any(c["star"] and c["site"] == "N" for c in _sites(ctx["prog"]))
+            and "call_next should be called right away" in ctx["reg"]["built"])
+
+
+@matcher("c09_iterable")
+def _c09_iterable(clause, replay, ctx):
+    def in_items(t):
+        for n in _walk(t):
+            if n.get("n") == "LC" and any(_sites(i) for i in n["items"]):
+                return True
+        return False
+
+    return (clause == "C09:placement_accepted" and in_items(ctx["prog"])
+            and "assignment expression cannot be used in a comprehension iterable" in ctx["reg"]["built"])
